@@ -109,10 +109,13 @@ def check_losses(ctx, idx):
     for f, clause in [("policy_loss", "ppo_policy_loss_is_clipped_surrogate"),
                       ("value_loss", "ppo_value_loss_is_half_mse_or_ppo2_max"),
                       ("entropy_loss", "entropy_loss_is_neg_mean_entropy"),
-                      ("approx_kl", "approx_kl"), ("loss", "total_is_weighted_sum")]:
+                      ("loss", "total_is_weighted_sum")]:
         if not ctx.close(case["impl"][f], m[f], sc):
             ctx.phi_fail(clause, case, key="ppo:" + f)
             return
+    # the KL estimator itself is not fixed by the property (only that it vanishes on-policy)
+    if not ctx.close(case["impl"]["approx_kl"], m["approx_kl"], sc):
+        ctx.disagree("approx_kl estimator", case, impl=case["impl"]["approx_kl"], model=m["approx_kl"])
     if on_policy:
         ctx.count("ppo:on-policy")
         if not (abs(float(stats.approx_kl)) < 1e-5 and ctx.close(float(stats.policy_loss), -float(np.mean(m["advantages"])), sc)):
